@@ -102,6 +102,17 @@ def dylib_driver():
     return drv, cc.build_guestlibs()
 
 
+def capacity(drv, extra=()):
+    """entry points the backend offers per sandbox, measured on the real backend (distinct callbacks are
+    registered on a fresh sandbox until the first refusal); a number beyond the driver's pool of functions
+    is reported as 1000 (the histories of the checks never get near it)"""
+    p = vp.run([drv, "--capacity"] + list(extra[:1]), timeout=120)
+    if p.returncode != 0 or not p.stdout.strip().isdigit():
+        raise vp.Broken("capacity probe failed: rc=%d %s" % (p.returncode, p.stderr[-300:]))
+    n = int(p.stdout.strip())
+    return n if n > 0 else 1000
+
+
 def replay(drv, wd, tag, lines, extra=()):
     """Runs the dumb executor over the action lines; if the process terminates (an abort
     escaped a noexcept member), the death is recorded as the observation of that action and
